@@ -175,7 +175,8 @@ def load_known():
     data = json.load(open(path))
     out = {}
     for e in data.get('findings', []):
-        out.setdefault(e['property'], []).append(e)
+        for p in [e['property']] + list(e.get('also', [])):
+            out.setdefault(p, []).append(e)
     return out
 
 
